@@ -287,14 +287,20 @@ Generate == /\ out = Pending
             /\ step' = step + 1
             /\ UNCHANGED <<start, row>>
 
-\* the user changes schema and/or configuration and generates again in the same directory
+\* The user extends the schema and changes the configuration, then generates again in the
+\* same directory.  The schema only GROWS along an evolution: resolver files are user-owned,
+\* gqlgen never deletes them, and a schema file whose last resolver field disappears leaves
+\* its resolver file behind (removal is the subject of C19, not of this property).
 Evolve == /\ out # Pending
           /\ step < MaxEvolve
           /\ start <= NCover
           /\ (start % EvolveEvery = 1 \/ EvolveEvery = 1)
           /\ row["models"] # "bound"
           /\ LET n == ((start + step - 1) % NCover) + 1 IN
-             row' = [f \in Factors |-> IF f \in Held THEN row[f] ELSE CoverSeq[n][f]]
+             row' = [f \in Factors |->
+                       IF f \in Held THEN row[f]
+                       ELSE IF f \in Range(SchemaBool) THEN (row[f] \/ CoverSeq[n][f])
+                       ELSE CoverSeq[n][f]]
           /\ out' = Pending
           /\ UNCHANGED <<start, step>>
 
